@@ -112,7 +112,9 @@ PROPS = {
         "level": "other",
         "verus": [("prettydec", ["from_str"]),
                   ("bookkeep", ["PriceRepositoryBuilder::insert_price", "callsite:insert_impl division", "check_balance", "posting_price_event", "add_transaction", "process_posting"]),
-                  ("amounts", None), ("balance", None), ("intern", ["InternStore::insert_canonical_impl", "InternStore::insert_alias_impl"])],
+                  ("amounts", None), ("balance", None), ("intern", ["InternStore::insert_canonical_impl", "InternStore::insert_alias_impl"]),
+                  # formatting: Display for Posting subtracts two usize widths and adds widths / offsets; the fmt_with_alignment impls add lengths
+                  ("postingfmt", ["Display for Posting", "fmt_with_alignment for ValueExpr", "fmt_with_alignment for Expr", "fmt_with_alignment for Amount"])],
         "kani": {"quick": ["parse_error_new_bounded", "compute_line_number_bounded", "clip_complete", "try_find_char_no_panic"], "thorough": ["parsed_context_line_and_slice"]},
         "family": ("c06", {"quick": ["quick"], "thorough": ["thorough"]}),
         "technique": "contract-based deductive verification (Verus safety/termination obligations of the contracted kernels) + Kani with unwinding assertions on the real crate for the loops that live in std",
@@ -422,7 +424,7 @@ PROPS = {
                       "core/src/syntax/display.rs: DisplayWithAlignment for WithContext<ValueExpr> / <Expr> / <Amount> (whole functions), WithContext::pass_context", "core/src/syntax/expr.rs: Display for UnaryOp, Display for BinaryOp", "core/src/syntax/display.rs: Display for WithContext<Posting> (whole function), print_clear_state; theorems theorem_amount_number_ends_at_column_52, theorem_amount_padding_is_spaces, theorem_assertion_only_aligned, theorem_assertion_after_amount"],
         "assumptions": ["ASSUMED model of core::fmt (vx/prelude/fmt_model.rs): write!(f, ..) sends the pieces of its format string to the sink in order and stops at the first error (rule R50); `{}` appends the argument's Display text; x.to_string() is that text; "
                         "str::len counts UTF-8 bytes (utf8_len is the definition of the encoding)", "ASSUMED: display::rescale is a function of (amount, context) (its contract is proved in group `rescale`); the text Display for PrettyDecimal prints is uninterpreted here (family c07)",
-                        "the printed text of one expression has at most usize::MAX bytes (requires of fmt_with_alignment)", "{:>width$} (put_padded_right: pads with spaces to `width` characters, never truncates) and unicode-width (uninterpreted width_cjk_spec / width_spec) are ASSUMED models", "requires of Display for Posting (posting_fits): account columns and expression texts below 2^30, and for an assertion the aligned offset (bytes) does not exceed the display width of its text - true when everything printed before the first commodity is ASCII, not proved", "stand-ins for Posting / PostingAmount / Lot / Exchange / Metadata / the Decorated wrapper (vx/prelude/posting_fmt_stub.rs): exactly the fields the function reads; the text of the lot part and of a metadata item is uninterpreted", "that bytes = display columns for the printed number prefix (ASCII) when reading the theorems as statements about columns"],
+                        "the printed text of one expression has at most usize::MAX bytes (requires of fmt_with_alignment)", "{:>width$} (put_padded_right: pads with spaces to `width` characters, never truncates) and unicode-width (uninterpreted width_cjk_spec / width_spec) are ASSUMED models", "requires of Display for Posting (posting_fits): account columns and expression texts below 2^30", "ASSUMED axioms (vx/prelude/alignment_width.rs): unicode-width is additive over concatenation and gives one column per printable ASCII character; Display for PrettyDecimal prints printable ASCII only (family c07).  From these it is PROVED (structural induction, lemma_expr_shape / lemma_abs_le_width) that everything printed before the end of the first commodity-bearing number is printable ASCII, so that the reported offset (bytes) equals display columns and never exceeds the display width of the text: the subtraction width_cjk(balance_str) - alignment cannot underflow", "stand-ins for Posting / PostingAmount / Lot / Exchange / Metadata / the Decorated wrapper (vx/prelude/posting_fmt_stub.rs): exactly the fields the function reads; the text of the lot part and of a metadata item is uninterpreted", "that bytes = display columns for the printed number prefix (ASCII) when reading the theorems as statements about columns"],
         "not_decided": ["that the number PrettyDecimal prints is ASCII (so that bytes = display columns; family c07 / c19)", "unicode width itself; Display for Lot / Metadata / Transaction; entry separation in format.rs (family c19)"],
     },
 }
